@@ -229,7 +229,7 @@ _USER_SCORE_CLASSES = {}
 def _user_score_classes(L):
     """User subclasses of Scores with their own constructors, one pair per package copy; registered as module
     attributes so that instances can be pickled like any user class defined at module level."""
-    key = L.__name__
+    key = L.Scores.__module__.split(".")[0]  # one pair per package copy (the copy under test / the pristine twin)
     if key not in _USER_SCORE_CLASSES:
         class Distances(L.Scores):
             def __init__(self, pos, neg, **kw):
